@@ -183,6 +183,7 @@ _TYPING["Any"] = TY.ANY
 _TYPING["Callable"] = TY.CALLABLE
 for _n, _obj in _TYPING.items():
     ax("typing-" + _n, z3.And(resolvable(S("typing"), S(_n)), lookup_(S("typing"), S(_n)) == _obj))
+ax("builtins-ellipsis", z3.And(resolvable(S("builtins"), S("Ellipsis")), lookup_(S("builtins"), S("Ellipsis")) == TY.ELLIPSIS))     # builtins.Ellipsis is the `...` object, not a class
 # the three builtin types that cannot be looked up by name
 HIDDEN = {"NoneType": TY.NONETYPE, "NotImplementedType": L.atom("cls", "NotImplementedType"), "mappingproxy": L.atom("cls", "mappingproxy")}
 importable = declare_pred("importable", L.V, L.B)       # every class mentioned in t can be looked up by (module, qualname) and is itself
@@ -320,6 +321,11 @@ R.ATTRS[("Obj", "__qualname__")] = lambda ip, r: (ip.partial(has_qualname(r.term
 
 
 ax("none-has-no-qualname", z3.Not(has_qualname(L.NONE)))
+ax("functions-have-qualname", L.FA(o, z3.Implies(CLI.okind(o) == CLI.OK["function"], z3.And(has_qualname(o), o != L.NONE)), [CLI.okind(o)]))
+
+
+R.SPEC["func_qualname_"] = SpecFn(lambda ip, a_, kw: ZV(_fq(as_v(a_[0])), "str"), "func_qualname_")
+R.SPEC["func_module_"] = SpecFn(lambda ip, a_, kw: ZV(L.fn("func_module", L.V, L.V)(as_v(a_[0])), "str"), "func_module_")
 
 
 @spec("qualname_or")
@@ -343,8 +349,9 @@ def _importable_func(ip, a_, kw):
     env = {"o": ZV(ob, "Obj")}
     fn_of = ip.spec_eval(_FN_OF, env)
     bad = ip.spec_eval(_BAD, env)
-    own = z3.If(has_qualname(as_v(fn_of)), _fq(as_v(fn_of)), qq) == qq      # the name is still bound to a function that calls itself by that name
-    return ZB(z3.And(resolvable(mm, qq), z3.Not(as_bool(bad)), own, as_v(fn_of) == ff))
+    f_ = as_v(fn_of)
+    own = z3.And(_fq(f_) == qq, L.fn("func_module", L.V, L.V)(f_) == mm, CLI.okind(f_) == CLI.OK["function"])     # a Python function defined under exactly this name
+    return ZB(z3.And(resolvable(mm, qq), z3.Not(CLI.unwrap_loops(lookup_(mm, qq))), z3.Not(as_bool(bad)), own, f_ == ff))
 
 
 R.SPEC["FN_OF_TEXT"] = PyC(_FN_OF)
